@@ -77,53 +77,7 @@ def run(ctx):
     aut = automaton()
     ti = TypeInfo(mir)
 
-    # ------------------------------------------------------------------ R02.1
-    r = ctx.rule("R02.1", "look-ahead never decides on a truncated chunk: wherever the consumed byte or a look-ahead byte is 'end of chunk, not last', the leaf only breaks (text states may emit_text first)", "E-SM", floor=65)
-    text_states = set(aut.text_state_map.values())
-    n_break = 0
-    for st, s in aut.states.items():
-        r.inst(st, nontrivial=True)
-        for l in s["leaves"]:
-            syms = [("ch", l["c0"])] + [("la%d" % k, v) for k, v in sorted(l["la"].items())]
-            has_none = [(n, m) for n, m in syms if m is not None and m & (1 << NONE)]
-            if not has_none:
-                continue
-            key = st + "|" + ",".join(n for n, _ in has_none)
-            if l["last"] is None:
-                r.violate(key + "|undecided", f"a leaf of {st} accepts end-of-chunk without asking is_last_input(): {describe_leaf(st, l)}", shared.state_loc(st))
-                continue
-            if l["last"] is True:
-                continue
-            n_break += 1
-            mixed = [(n, m) for n, m in has_none if m != (1 << NONE)]
-            if mixed:
-                r.violate(key + "|merged", f"{st}: end of a non-last chunk is treated like a byte mismatch ({mixed[0][0]}={fmt_mask(mixed[0][1])}) - the state would decide on a truncated look-ahead: {describe_leaf(st, l)}", shared.state_loc(st))
-                continue
-            if l["term"]["t"] != "break":
-                r.violate(key + "|no-break", f"{st}: at end of a non-last chunk the state does not break: {describe_leaf(st, l)}", shared.state_loc(st))
-                continue
-            acts = [a["name"] for a in l["acts"] if not a.get("internal")]
-            internal = [a["name"] for a in l["acts"] if a.get("internal")]
-            allowed = TEXT_EOC_ALLOWED if (st in text_states and l["c0"] == (1 << NONE)) else set()
-            # `@leave_seq` of *earlier* sequence arms that mismatched on the first byte is fine; what must not
-            # happen is consuming / un-consuming or leaving the arm that is currently waiting for more input
-            depth = 0
-            bad_internal = False
-            for a in internal:
-                if a == "@enter_seq":
-                    depth += 1
-                elif a == "@leave_seq":
-                    depth -= 1
-                elif a in ("@consume_several", "@unconsume"):
-                    bad_internal = True
-            waiting_on_lookahead = any(n != "ch" for n, _ in has_none)
-            if waiting_on_lookahead and depth != 1:
-                bad_internal = True
-            if any(a not in allowed for a in acts) or bad_internal:
-                r.violate(key + "|acts", f"{st}: actions run before breaking at end of a non-last chunk: {describe_leaf(st, l)}", shared.state_loc(st))
-    r.count("end_of_chunk_leaves", n_break)
-    if n_break < 65 + 30 and not r.violations:
-        raise EngineError("R02.1: only %d end-of-chunk leaves found" % n_break)
+    rule_lookahead_truncation(ctx, aut)
 
     # ------------------------------------------------------------------ R02.2
     r = ctx.rule("R02.2", "Align covers every stored range: each impl Align re-bases every position-bearing field; Lexer/TagScanner::adjust_for_next_input re-base or reset every position field", "E-MIR (type-driven)", floor=14)
@@ -292,8 +246,28 @@ def run(ctx):
     sm.clause_rewrite_str_plumbing(r, mir)
     sm.clause_seq_mark_writes(r, mir)
 
+    rule_decoder_fast_path(ctx, mir)
+
+    # ------------------------------------------------------------------ R02.7 (shared with C13 R13.4)
+    # the slow (streaming) and the fast decode path must treat a leading U+FEFF alike: no BOM handling on either
+    from .c13 import rule_no_bom_sniffing
+    rule_no_bom_sniffing(ctx, mir, rid="R02.7")
+
+    # ------------------------------------------------------------------ R02.8 (shared with C09 R09.4)
+    # what the parser reports as consumed decides which bytes are re-fed with the next chunk
+    from .c09 import rule_consumed_count
+    from ..smimpl import index as _index
+    rule_consumed_count(ctx, _index(), rid="R02.8")
+
+    ctx.not_decided += ["invariance of the concatenation of text chunks (decoder arithmetic)", "equality of outputs/events between two schedules as such (relation between runs)"]
+    return ("Mechanism clauses of chunk-boundary invariance: end-of-chunk behaviour of all %d automaton states incl. every look-ahead prefix, "
+            "type-driven completeness of Align impls and of adjust_for_next_input, re-basing in break_on_end_of_input, flush-before-scope-change "
+            "dominance in the dispatcher, the decoder fast-path guard." % len(aut.states))
+
+
+def rule_decoder_fast_path(ctx, mir, rid="R02.6"):
     # ------------------------------------------------------------------ R02.6
-    r = ctx.rule("R02.6", "the text decoder's fast path is never taken while the streaming decoder may hold the head of a split character: in split_utf8_start everything is dominated by the `pending decoder is none` edge", "E-MIR", floor=2)
+    r = ctx.rule(rid, "the text decoder's fast path is never taken while the streaming decoder may hold the head of a split character: in split_utf8_start everything is dominated by the `pending decoder is none` edge", "E-MIR", floor=2)
     f = mir.fn("TextDecoder::split_utf8_start")
     chk = [(bi, t) for bi, t in f.calls(r"Option::is_some$|Option::is_none$") if "pending_text_streaming_decoder" in f.describe_operand(t["args"][0])]
     r.inst("guard-present", sample={"guards": len(chk)})
@@ -322,18 +296,54 @@ def run(ctx):
     if len(list(ff.calls(r"TextDecoder::split_utf8_start$"))) != 1:
         r.violate("feed_text|single-fast-path", "feed_text must consult split_utf8_start exactly once, before the streaming decoder", ff.loc())
 
-    # ------------------------------------------------------------------ R02.7 (shared with C13 R13.4)
-    # the slow (streaming) and the fast decode path must treat a leading U+FEFF alike: no BOM handling on either
-    from .c13 import rule_no_bom_sniffing
-    rule_no_bom_sniffing(ctx, mir, rid="R02.7")
 
-    # ------------------------------------------------------------------ R02.8 (shared with C09 R09.4)
-    # what the parser reports as consumed decides which bytes are re-fed with the next chunk
-    from .c09 import rule_consumed_count
-    from ..smimpl import index as _index
-    rule_consumed_count(ctx, _index(), rid="R02.8")
 
-    ctx.not_decided += ["invariance of the concatenation of text chunks (decoder arithmetic)", "equality of outputs/events between two schedules as such (relation between runs)"]
-    return ("Mechanism clauses of chunk-boundary invariance: end-of-chunk behaviour of all %d automaton states incl. every look-ahead prefix, "
-            "type-driven completeness of Align impls and of adjust_for_next_input, re-basing in break_on_end_of_input, flush-before-scope-change "
-            "dominance in the dispatcher, the decoder fast-path guard." % len(aut.states))
+def rule_lookahead_truncation(ctx, aut, rid="R02.1"):
+    # ------------------------------------------------------------------ R02.1
+    r = ctx.rule(rid, "look-ahead never decides on a truncated chunk: wherever the consumed byte or a look-ahead byte is 'end of chunk, not last', the leaf only breaks (text states may emit_text first)", "E-SM", floor=65)
+    text_states = set(aut.text_state_map.values())
+    n_break = 0
+    for st, s in aut.states.items():
+        r.inst(st, nontrivial=True)
+        for l in s["leaves"]:
+            syms = [("ch", l["c0"])] + [("la%d" % k, v) for k, v in sorted(l["la"].items())]
+            has_none = [(n, m) for n, m in syms if m is not None and m & (1 << NONE)]
+            if not has_none:
+                continue
+            key = st + "|" + ",".join(n for n, _ in has_none)
+            if l["last"] is None:
+                r.violate(key + "|undecided", f"a leaf of {st} accepts end-of-chunk without asking is_last_input(): {describe_leaf(st, l)}", shared.state_loc(st))
+                continue
+            if l["last"] is True:
+                continue
+            n_break += 1
+            mixed = [(n, m) for n, m in has_none if m != (1 << NONE)]
+            if mixed:
+                r.violate(key + "|merged", f"{st}: end of a non-last chunk is treated like a byte mismatch ({mixed[0][0]}={fmt_mask(mixed[0][1])}) - the state would decide on a truncated look-ahead: {describe_leaf(st, l)}", shared.state_loc(st))
+                continue
+            if l["term"]["t"] != "break":
+                r.violate(key + "|no-break", f"{st}: at end of a non-last chunk the state does not break: {describe_leaf(st, l)}", shared.state_loc(st))
+                continue
+            acts = [a["name"] for a in l["acts"] if not a.get("internal")]
+            internal = [a["name"] for a in l["acts"] if a.get("internal")]
+            allowed = TEXT_EOC_ALLOWED if (st in text_states and l["c0"] == (1 << NONE)) else set()
+            # `@leave_seq` of *earlier* sequence arms that mismatched on the first byte is fine; what must not
+            # happen is consuming / un-consuming or leaving the arm that is currently waiting for more input
+            depth = 0
+            bad_internal = False
+            for a in internal:
+                if a == "@enter_seq":
+                    depth += 1
+                elif a == "@leave_seq":
+                    depth -= 1
+                elif a in ("@consume_several", "@unconsume"):
+                    bad_internal = True
+            waiting_on_lookahead = any(n != "ch" for n, _ in has_none)
+            if waiting_on_lookahead and depth != 1:
+                bad_internal = True
+            if any(a not in allowed for a in acts) or bad_internal:
+                r.violate(key + "|acts", f"{st}: actions run before breaking at end of a non-last chunk: {describe_leaf(st, l)}", shared.state_loc(st))
+    r.count("end_of_chunk_leaves", n_break)
+    if n_break < 65 + 30 and not r.violations:
+        raise EngineError(rid + ": only %d end-of-chunk leaves found" % n_break)
+
